@@ -44,6 +44,12 @@ fn main() {
         return;
     }
     engine::silence_stderr();
+    if id == "C12" && args[2] == "--child" {
+        let seed: u64 = args.get(3).and_then(|s| s.parse().ok()).unwrap_or(1);
+        let n: usize = args.get(4).and_then(|s| s.parse().ok()).unwrap_or(10);
+        props::c12::child_main(seed, n);
+        return;
+    }
     let entry = match props::PROPS.iter().find(|p| p.id == id) {
         Some(e) => e,
         None => {
@@ -51,6 +57,7 @@ fn main() {
             std::process::exit(2);
         }
     };
+    engine::install_crash_handler(id);
     let code = if args[2] == "--replay" {
         if args.len() < 4 {
             usage();
